@@ -267,6 +267,7 @@ func main() {
 		budgetStr = flag.String("budgets", "", "override the budgets of the configuration(s), e.g. \"0,0;1,0\" (-1 = unbounded)")
 		maxViol   = flag.Int("max-violations", 1, "worker mode: violations to collect before stopping")
 	)
+	free := flag.Int("free", 0, "supplementary pass: run every configuration of the tier N times FREE-RUNNING (real goroutines, shim in pass-through mode); build with -race")
 	cpuprof := flag.String("cpuprofile", "", "write a CPU profile (worker mode)")
 	shard := flag.Int("shard", 0, "worker mode: index of this shard")
 	nshards := flag.Int("shards", 1, "worker mode: the exploration is split into that many shards (subtrees below the first choice points, dealt round-robin)")
@@ -288,6 +289,8 @@ func main() {
 		}
 	case *replay != "":
 		os.Exit(doReplay(*replay))
+	case *free > 0:
+		os.Exit(doFree(*tier, *config, *free))
 	case *worker:
 		rc := doWorker(*config, *tier, *budgetStr, *deadline, *maxViol, *shard, *nshards)
 		pprof.StopCPUProfile()
